@@ -486,6 +486,100 @@ Definition result (r : req) : val :=
   end.
 Definition run_C16 (r : req) : val := VL [VB (wf_C16 r); result r].
 
+(* ---------------------------------------------------------------- histories (state-independence stream) *)
+(* Several calls on ONE collection object.  The model is pure: the expected outcome of a step is the model applied to the
+   CURRENT value; only in-place steps change it.  The driver additionally mutates every not-in-place result and checks
+   that neither the receiver, nor the other operand, nor earlier results change. *)
+Inductive hstep :=
+| HFilter (inplace : bool) (conds : list cond)
+| HSort (ks : keyspec) (reverse : bool)
+| HGroup (ks : keyspec)
+| HSelect (t : targ)
+| HGet (t : targ)
+| HTodict
+| HSetop (code : N) (b : list elem)         (* codes 4-7: b is the plain-list LEFT operand, the collection the right one *)
+| HReverse                                   (* cur.data.reverse() *)
+| HSetItem (j i : nat)                       (* cur.data[j] = cur.data[i] : the same object twice in the collection *)
+| HSetMeta (j : nat) (k : str) (v : pv).     (* cur.data[j].meta[k] = v *)
+Definition step_req (s : hstep) (cur : list elem) : option req :=
+  match s with
+  | HFilter inplace conds => Some (RFilter inplace cur conds)
+  | HSort ks r => Some (RSort cur ks r)
+  | HGroup ks => Some (RGroup cur ks)
+  | HSelect t => Some (RSelect cur t)
+  | HGet t => Some (RGet cur t)
+  | HTodict => Some (RTodict cur)
+  | HSetop code b => Some (if (N.leb 4 code && N.ltb code 8)%bool then RSetop code b cur else RSetop code cur b)
+  | _ => None
+  end.
+Fixpoint set_nth {A} (j : nat) (x : A) (l : list A) : list A :=
+  match l, j with
+  | [], _ => []
+  | _ :: r, O => x :: r
+  | y :: r, S j' => y :: set_nth j' x r
+  end.
+Fixpoint meta_set (k : str) (v : pv) (m : list (str * pv)) : list (str * pv) :=
+  match m with
+  | [] => [(k, v)]
+  | (a, w) :: r => if str_eqb a k then (a, v) :: r else (a, w) :: meta_set k v r
+  end.
+Definition with_meta (x : elem) (m : list (str * pv)) : elem := mkE (eidx x) (efeat x) (edata x) (elocs x) m.
+(* an edit of one object is seen through every position holding that object (same eidx) *)
+Definition edit_meta (i : nat) (k : str) (v : pv) (l : list elem) : list elem :=
+  map (fun x => if Nat.eqb (eidx x) i then with_meta x (meta_set k v (emeta x)) else x) l.
+Definition step_next (s : hstep) (cur : list elem) : list elem :=
+  match s with
+  | HFilter true conds => match m_filter conds cur with Ok l => l | Err _ => cur end
+  | HSort ks r => m_sort ks r cur
+  | HSetop code b => if N.leb 8 code then m_setop code cur b else cur
+  | HReverse => rev cur
+  | HSetItem j i => match nth_error cur i with Some x => set_nth j x cur | None => cur end
+  | HSetMeta j k v => match nth_error cur j with Some x => edit_meta (eidx x) k v cur | None => cur end
+  | _ => cur
+  end.
+Definition step_wf (s : hstep) (cur : list elem) : bool :=
+  match step_req s cur with
+  | Some r => wf_C16 r
+  | None => match s with
+            | HSetItem j i => Nat.ltb j (length cur) && Nat.ltb i (length cur)
+            | HSetMeta j k _ => Nat.ltb j (length cur) && key_name_ok k
+            | _ => true
+            end
+  end.
+Fixpoint hist_wf (steps : list hstep) (cur : list elem) : bool :=
+  match steps with
+  | [] => true
+  | s :: r => step_wf s cur && hist_wf r (step_next s cur)
+  end.
+Definition is_verr (v : val) : bool := match v with VE _ => true | _ => false end.
+(* per step: [outcome of the call; content of the collection afterwards]; a raising step ends the history *)
+Fixpoint hist_vals (steps : list hstep) (cur : list elem) : list val :=
+  match steps with
+  | [] => []
+  | s :: r =>
+      let v := match step_req s cur with Some q => result q | None => VNone end in
+      if is_verr v then [v]
+      else VL [v; vidx (step_next s cur)] :: hist_vals r (step_next s cur)
+  end.
+Definition run_C16_hist (objs : list elem) (steps : list hstep) : val :=
+  VL [VB (elems_ok objs && hist_wf steps objs); VL (hist_vals steps objs)].
+
+(* basket.fts = fs1; basket.add_fts(fs2); ... on ONE basket *)
+Fixpoint hattach_vals (seqs : list (pv * list elem)) (steps : list (bool * list elem)) : list val :=
+  match steps with
+  | [] => []
+  | (add, fs) :: r =>
+      let rs := m_attach add seqs fs in
+      VL (map vidx rs) :: hattach_vals (combine (map fst seqs) rs) r
+  end.
+Fixpoint hattach_wf (seqs : list (pv * list elem)) (steps : list (bool * list elem)) : bool :=
+  match steps with
+  | [] => true
+  | (add, fs) :: r => attach_ok add seqs fs && hattach_wf (combine (map fst seqs) (m_attach add seqs fs)) r
+  end.
+Definition run_C16_hattach (seqs : list (pv * list elem)) (steps : list (bool * list elem)) : val :=
+  VL [VB (hattach_wf seqs steps); VL (hattach_vals seqs steps)].
+
 (* ---------------------------------------------------------------- specification side (used by the theorems) *)
 (* truth value of one condition on one element (false where Python would raise; inside wf_C16 it never does) *)
 Definition holds (c : cond) (x : elem) : bool := match cond_eval c x with Ok b => b | Err _ => false end.
@@ -522,3 +616,8 @@ Fixpoint spec_tree (kfs : list key) (objs : list elem) : gtree :=
       GNode (map (fun v => (v, spec_tree kfs' (filter (fun x => pv_eqb (keyval k x) v) objs)))
                  (first_occ (map (keyval k) objs)))
   end.
+(* todict: the last element carrying an id *)
+Definition last_with (k : pv) (objs : list elem) : option elem :=
+  fold_left (fun acc x => if pv_eqb (mget k_id x) k then Some x else acc) objs None.
+(* elements whose metadata is a dict (no repeated key) *)
+Definition meta_ok (x : elem) : bool := nodup_keys (emeta x).
